@@ -16,6 +16,11 @@ SPEC = {
         H("c12::c12_handle_after_drop", desc="subscriber dropped: reload / modify / with_current return Err(is_dropped), the closure does not run, no rebuild happens (max level unchanged), clone_current is None, no panic",
           sym="which operation, old/new value, max level before"),
         H("c12::c12_reach", kind="reach", desc="vacuity twin"),
+        # the other half of the composition (shared with C01-K2, harness crate `core`): what the rebuild that the reload
+        # triggers does with the registered collectors
+        H("c01::c01_k2_rebuild_hints2", group="core", desc="composition lemma (C01-K2): the real rebuild_interest keeps every live collector registered whatever hint it reports (incl. OFF, the value a reloadable filter may currently hold) and folds the hints into the global max level",
+          sym="both collectors' hints, stale max level"),
+        H("c01::c01_k2_fold_live1", group="core", desc="composition lemma (C01-K2): after the rebuild a callsite's cached interest is the registered collector's own (new) answer", sym="answer in 3, stale cached interest"),
     ],
     "caps": {"jobs": 6, "mem_gb": 12, "quick_harness_timeout": 400, "thorough_harness_timeout": 1200},
     "functions": [
@@ -31,7 +36,7 @@ SPEC = {
     "stubs": ["std::rt::thread_cleanup -> no-op", "core::fmt::write -> Ok(())",
               "std::sync::RwLock::read -> try_read, 'would block' is a failed assertion (order harnesses only: the single thread already holds the write lock = deadlock)",
               "c12::probe_lock -> the same read on the calling thread (the native body, used in replays, reads on a helper thread with a timeout)",
-              "once_cell shim (callsite registry Lazy)", "a light Collect stand-in as the stack's root"],
+              "once_cell shim (callsite registry Lazy)", "a light Collect stand-in as the stack's root", "core-group lemmas: VRegistrars (harness-owned registrar list, hook H1), unregistered Dispatch constructor"],
     "assumptions": ["std RwLock: an uncontended read/write lock succeeds; compare_exchange_weak does not fail spuriously (Kani's model)",
                     "no dispatcher registered: rebuild_interest_cache sets every callsite to Interest::never and the max level to OFF (that is what identifies the real rebuild in the order harnesses)"],
     "manifest": {
